@@ -122,3 +122,33 @@ def raw_public_bytes(priv):
     return call(attr(call(attr(priv, "public_key")), "public_bytes"), kw=(
         ("encoding", glob("cryptography.hazmat.primitives.serialization.Encoding.Raw")),
         ("format", glob("cryptography.hazmat.primitives.serialization.PublicFormat.Raw"))))
+
+
+def step_check_effective(ctx: Context, rule: str) -> None:
+    """The gate `handle_state_step(reply, Mk) returned normally` is a gate only if that function cannot return normally
+    for a reply that carries an error item: in handle_state_step the error-present outcome can only raise, and
+    error_handler - which turns the code into the exception - has no normal exit for ANY code (a look-up table without
+    a fall-back returns for the codes it does not list; a reply altered in one bit of its error value then passes)."""
+    from . import c04
+
+    ck = ctx.ck
+    hf = ctx.func(f"{P}.handle_state_step")
+    hcfg = ctx.cfg(hf.qualname)
+    tests = c04.error_tests(ctx, hcfg)
+    absent = []
+    for n, present, ab in tests:
+        absent += ctx.edges(hcfg, n, ab)
+    ctx.must_pass(rule, hcfg, hcfg.exit, "error-TLV test [absent outcome]", absent,
+                  desc="handle_state_step (the step check of this exchange): returns normally only for a reply without an error item")
+    for n, present, _ab in tests:
+        for e in ctx.edges(hcfg, n, present):
+            ok, _classes = c04.branch_always_raises(hcfg, e)
+            ck.check(rule, ok, "handle_state_step: with an error item present it can only raise", f"{ctx.fkey(hf)}:step-check-passes-error",
+                     "handle_state_step can return normally although the reply carries an error item (for some error values): the step check of this "
+                     "exchange lets a rejected / altered reply pass", ctx.loc(hf, n), hcfg.render_path(hcfg.find_path(e[1], hcfg.exit.id) or []))
+    ef = ctx.func(f"{P}.error_handler")
+    ecfg = ctx.cfg(ef.qualname)
+    path = ecfg.find_path(ecfg.entry.id, ecfg.exit.id)
+    ck.check(rule, path is None, "error_handler has no normal exit (every error value raises)", f"{ctx.fkey(ef)}:returns",
+             "error_handler can return normally for some error values: handle_state_step then treats that error reply as a good step",
+             ef.loc(), ecfg.render_path(path) if path else None)
